@@ -38,21 +38,17 @@ def xor6(a, b):
     """a xor b for 0 <= a, b < 64 as an integer term: sum over bits"""
     if isinstance(a, int) and isinstance(b, int):
         return a ^ b
-    r = 0
-    for i in range(6):
-        ai = (a / (1 << i)) % 2 if not isinstance(a, int) else (a >> i) & 1
-        bi = (b / (1 << i)) % 2 if not isinstance(b, int) else (b >> i) & 1
-        r = r + z3.If(ai + bi == 1, 1 << i, 0)
-    return r
+    from engine.common import bits
+    a = z3.IntVal(a) if isinstance(a, int) else a
+    b = z3.IntVal(b) if isinstance(b, int) else b
+    return bits.xor_bits(a, b, 6)
 
 
 def rntable(idx):
     if isinstance(idx, int):
         return RNTABLE[idx]
-    r = z3.IntVal(RNTABLE[-1])
-    for k in range(len(RNTABLE) - 2, -1, -1):
-        r = z3.If(idx == k, RNTABLE[k], r)
-    return r
+    from engine.common.core import uf_table
+    return uf_table(RNTABLE)(idx)
 
 
 def mai(hsn, maio, n, nb, fn):
